@@ -182,7 +182,7 @@ func quiesce(consID int, limit time.Duration) quiet {
 
 // ---- rendering ----
 type gobs struct {
-	Res   string  `json:"res"` // "w:<n>:<ok>", "none", "blocked", "panic"
+	Res   string  `json:"res"`  // "w:<n>:<ok>", "none", "blocked", "panic"
 	Done  []int   `json:"done"` // lengths of the underlying writes that returned
 	Gate  int     `json:"gate"` // length of the parked write, -1 = not parked
 	Ret   int     `json:"ret"`  // length of the file when Flush/Close returned, -1 = no return
